@@ -21,11 +21,14 @@ def main():
     ap.add_argument('--only')
     ap.add_argument('--seeded', action='store_true', help='use seeded/<ID>-*/patch.diff instead of tools/mutants.json')
     ap.add_argument('--seed', default='1')
+    ap.add_argument('--use', help='run seeded/<USE>/patch.diff against the given properties (cross-property check)')
     a = ap.parse_args()
     muts = json.load(open(os.path.join(VERIF, 'tools', 'mutants.json')))
     results = []
     for pid in a.props:
-        if a.seeded:
+        if a.use:
+            cand = [{'name': a.use, 'patch': os.path.join(VERIF, 'seeded', a.use, 'patch.diff')}]
+        elif a.seeded:
             sd = os.path.join(VERIF, 'seeded')
             cand = [{'name': n, 'patch': os.path.join(sd, n, 'patch.diff')} for n in sorted(os.listdir(sd)) if n.startswith(pid + '-')]
         else:
